@@ -97,6 +97,14 @@ STD_OPTIONS = [
     ("reverse_reparameterisations=True", {"reverse_reparameterisations": True, "reparameterisations": {"x": "default", "y": "zscore"}}, {}, False),
     ("flow_config.ftype=maf", {"flow_config": {"ftype": "maf"}}, {}, True),
     ("flow_config.ftype=nsf", {"flow_config": {"ftype": "nsf"}}, {}, True),
+    ("flow_config.ftype=glasflow-realnvp", {"flow_config": {"ftype": "glasflow-realnvp"}}, {}, False),
+    ("flow_config.ftype=glasflow-nsf", {"flow_config": {"ftype": "glasflow-nsf"}}, {}, False),
+    ("flow_config.ftype=glasflow-realnvp,latent_prior=flow,constant_volume_mode=False",
+     {"flow_config": {"ftype": "glasflow-realnvp"}, "latent_prior": "flow", "constant_volume_mode": False}, {}, True),
+    ("flow_config.ftype=maf,latent_prior=flow,constant_volume_mode=False",
+     {"flow_config": {"ftype": "maf"}, "latent_prior": "flow", "constant_volume_mode": False}, {}, False),
+    ("flow_config.ftype=nsf,latent_prior=flow,constant_volume_mode=False",
+     {"flow_config": {"ftype": "nsf"}, "latent_prior": "flow", "constant_volume_mode": False}, {}, False),
     ("flow_config.batch_norm_between_layers=False", {"flow_config": {"batch_norm_between_layers": False}}, {}, False),
     ("flow_config.linear_transform=svd", {"flow_config": {"linear_transform": "svd"}}, {}, False),
     ("flow_config.linear_transform=permutation", {"flow_config": {"linear_transform": "permutation"}}, {}, False),
@@ -195,6 +203,8 @@ INS_OPTIONS = [
     ("clip=True", {"clip": True}, {}, False),
     ("flow_config.ftype=nsf", {"flow_config": {"ftype": "nsf"}}, {}, False),
     ("flow_config.ftype=maf", {"flow_config": {"ftype": "maf"}}, {}, True),
+    ("flow_config.ftype=glasflow-realnvp", {"flow_config": {"ftype": "glasflow-realnvp"}}, {}, False),
+    ("flow_config.ftype=glasflow-nsf", {"flow_config": {"ftype": "glasflow-nsf"}}, {}, False),
     ("training_config.noise=constant", {"training_config": {"noise_type": "constant", "noise_scale": 0.1}}, {}, False),
     ("flow_config.batch_norm_between_layers=False", {"flow_config": {"batch_norm_between_layers": False}}, {}, False),
     ("flow_config.linear_transform=permutation", {"flow_config": {"linear_transform": "permutation"}}, {}, False),
@@ -346,6 +356,85 @@ INS_LEVEL_AXES = [
 ]
 
 
+# ---- reparameterisations: generated from the registry REGENERATED from the source --------------------------------
+PI = math.pi
+BOX_AZ = f"box:0,{2 * PI},0,{PI}"                    # x in [0, 2pi], y in [0, pi]
+BOX_RA = f"box:0,{2 * PI},{-PI / 2},{PI / 2}"        # x in [0, 2pi], y in [-pi/2, pi/2]
+# (model, parameter the name is applied to) for names that need particular bounds; everything else: gauss2, x
+NAME_PLAN = {"angle": (BOX_AZ, "x"), "angle-2pi": (BOX_AZ, "x"), "periodic": (BOX_AZ, "x"), "angle-pi": (BOX_AZ, "y"),
+             "angle-sine": (BOX_AZ, "y"), "to-cartesian": (BOX_AZ, "y"), "angle-cosine": (BOX_RA, "y"),
+             "angle-pair": (BOX_RA, "xy")}
+# extra keywords a class needs to be usable at all, and its documented sub-options
+CLASS_EXTRA = {"Rescale": {"scale": 2.0}, "ScaleAndShift": {"scale": 2.0}}
+CLASS_SUB = {
+    "RescaleToBounds": [{"prior": "uniform"}, {"boundary_inversion": True, "inversion_type": "split"},
+                        {"boundary_inversion": True, "inversion_type": "duplicate"},
+                        {"boundary_inversion": True, "detect_edges": True},
+                        {"boundary_inversion": True, "prior": "uniform"},
+                        {"update_bounds": False}, {"offset": True}, {"rescale_bounds": [0.0, 1.0]},
+                        {"rescale_bounds": [0.0, 1.0], "update_bounds": False, "post_rescaling": "logit"},
+                        {"rescale_bounds": [0.0, 1.0], "update_bounds": False, "post_rescaling": "log"},
+                        {"pre_rescaling": "exp"}, {"prior": "uniform", "update_bounds": False}],
+    "ScaleAndShift": [{"scale": 2.0, "shift": 1.0}, {"estimate_scale": True, "estimate_shift": True}, {"estimate_shift": True, "scale": 2.0}],
+    "Rescale": [{"scale": 0.5}],
+    "Angle": [{"scale": 1.0, "prior": "uniform"}, {"scale": None}],
+    "AnglePair": [{"convention": "ra-dec"}, {"prior": "isotropic"}],
+    "ToCartesian": [{"mode": "duplicate"}, {"mode": "half"}],
+}
+FALLBACK_REGISTRY = [("default", "RescaleToBounds", []), ("zscore", "ScaleAndShift", ["estimate_scale", "estimate_shift"])]
+# reparameterisations that interact with the population step (x-prime prior for every parameter, inversion)
+REPARAM_POP = [
+    ("prime-uniform:all", {"rescaletobounds": {"parameters": ["x", "y"], "prior": "uniform"}}),
+    ("prime-uniform:x", {"x": {"reparameterisation": "rescaletobounds", "prior": "uniform"}}),
+    ("inversion:all", {"inversion": {"parameters": ["x", "y"]}}),
+    ("inversion-duplicate:all", {"inversion-duplicate": {"parameters": ["x", "y"]}}),
+    ("logit:all", {"logit": {"parameters": ["x", "y"]}}),
+]
+REPARAM_PARTNERS = [{"drawsize": 2}, {"truncate_log_q": True}, {"accumulate_weights": True}, {"constant_volume_mode": False},
+                    {"latent_prior": "uniform_nball"}, {"check_acceptance": True}, {"flow_proposal_class": "augmentedflowproposal"},
+                    {"maximum_uninformed": False}]
+
+
+def _sub_label(d):
+    return ",".join(f"{k}={v}" for k, v in sorted(d.items()))
+
+
+def reparam_jobs(n, tier, seed0, registry):
+    """every registered name on a parameter whose bounds suit it (one parameter, and - where the class takes several -
+    all parameters), every documented sub-option of its class, and the population-relevant ones in pairs with the
+    population options.  Both tiers."""
+    out = []
+
+    def job(label, rep, model, extra=None, stream="valid"):
+        kw = {"reparameterisations": rep}
+        kw.update(extra or {})
+        out.append(mkjob(f"j{next(n)}", "std", label, kw, {}, tier, seed0, stream=stream, model=model))
+
+    done_sub = set()
+    for name, cls, _defaults in registry:
+        model, par = NAME_PLAN.get(name, ("gauss2", "x"))
+        extra = dict(CLASS_EXTRA.get(cls, {})) if not _defaults else {}
+        if par == "xy":
+            job(f"reparam[{name}:x+y]", {name: {"parameters": ["x", "y"], **extra}}, model)
+        else:
+            job(f"reparam[{name}:{par}]", {par: {"reparameterisation": name, **extra}}, model)
+            if cls not in ("Angle", "ToCartesian"):
+                job(f"reparam[{name}:all]", {name: {"parameters": ["x", "y"], **extra}}, model)
+        if cls not in done_sub:
+            done_sub.add(cls)
+            for sub in CLASS_SUB.get(cls, []):
+                if par == "xy":
+                    job(f"reparam[{name}:x+y,{_sub_label(sub)}]", {name: {"parameters": ["x", "y"], **sub}}, model)
+                else:
+                    job(f"reparam[{name}:{par},{_sub_label(sub)}]", {par: {"reparameterisation": name, **sub}}, model)
+                    if cls not in ("Angle", "ToCartesian"):
+                        job(f"reparam[{name}:all,{_sub_label(sub)}]", {name: {"parameters": ["x", "y"], **sub}}, model)
+    for rl, rep in REPARAM_POP:
+        for partner in REPARAM_PARTNERS:
+            job(f"reparam[{rl}] x {compact(partner)}", rep, "gauss2", extra=partner, stream="pair")
+    return out
+
+
 def mini_array(n, sampler, axes, tier, seed0, model, seeds_for_singles=1):
     out = []
     suffix = "" if model == "gauss2" else f"@{model}"
@@ -426,7 +515,7 @@ def alias_jobs(n, tier, seed0, alias_tbl):
     return out
 
 
-def build_jobs(chk, alias_tbl=None):
+def build_jobs(chk, alias_tbl=None, registry=None):
     tier, jobs = chk.tier, []
     seed0 = 1000 + chk.seed
     n = itertools.count()
@@ -456,6 +545,7 @@ def build_jobs(chk, alias_tbl=None):
         jobs.append(mkjob(f"j{next(n)}", sampler, "<base>@corner2", {}, {}, tier, seed0, model="corner2"))
         if sampler == "std":
             jobs += mini_array(n, "std", POP_AXES, tier, seed0, "corner2", seeds_for_singles=2 if tier == "quick" else 3)
+            jobs += reparam_jobs(n, tier, seed0, registry or FALLBACK_REGISTRY)
         if tier == "thorough":
             for (na, va), (nb, vb) in itertools.combinations(axes, 2):
                 for a in va:
@@ -1109,10 +1199,36 @@ def lres_lit(k, a, p):
     return f"(Done {cN(k)} {cZ(a)} {cZ(p)})"
 
 
-def covering_array(chk, static, alias_tbl=None):
-    jobs = build_jobs(chk, alias_tbl)
-    t0 = time.time()
-    results, err = run_jobs(chk, jobs, timeout=1500 if chk.tier == "quick" else 5400)
+def start_array(chk):
+    """the bounded runs start first (they need only the two regenerated tables) and go on in a thread while the Coq
+    obligations are compiled"""
+    import threading
+    import c20_options
+    from pyast import Declined
+    tables = {}
+    for name, fn in (("aliases", c20_options.aliases), ("registry", c20_options.reparam_registry)):
+        try:
+            tables[name] = fn()
+        except Declined as e:
+            tables[name] = None
+            chk.translator[name + "(for the array)"] = f"declined: {e}"
+    chk.translator["reparam_registry"] = (f"translated ({len(tables['registry'])} names)" if tables["registry"] else "declined")
+    jobs = build_jobs(chk, tables["aliases"], tables["registry"])
+    box = {"jobs": jobs, "t0": time.time()}
+
+    def work():
+        box["results"], box["err"] = run_jobs(chk, jobs, timeout=1500 if chk.tier == "quick" else 5400)
+        box["t1"] = time.time()
+
+    box["thread"] = threading.Thread(target=work, daemon=True)
+    box["thread"].start()
+    return box
+
+
+def covering_array(chk, static, box):
+    box["thread"].join()
+    jobs, results, err = box["jobs"], box.get("results"), box.get("err")
+    t0 = time.time() - (box.get("t1", time.time()) - box["t0"])
     if results is None:
         chk.oblige("covering-array child ran", "harness", False, err)
         return
@@ -1225,13 +1341,14 @@ def run(chk):
         "names assigned through a non-self receiver anywhere in the package (obj.attr = ...) count as bound for every class",
         "phase of a failure is observed by wrapping populate_live_points (sampling starts) and finalise (sampling finished) of both samplers",
     ]
+    box = start_array(chk)
     chk.static_props(["C20"], ["C20_run"])
     static = call_table(chk)
     if static:
         validate_sigs(chk, static["tb"])
     st = validators_static(chk)
     validators_dynamic(chk, st)
-    covering_array(chk, static, st.get("aliases"))
+    covering_array(chk, static, box)
 
 
 # =====================================================================================================
